@@ -13,6 +13,13 @@
 // ledger (header path / block path) must equal the reference sets, and a rejected call must leave
 // heights and tip unchanged.
 //
+// Every variant is additionally delivered against what the ledger already holds for that height: after
+// AddHeader of the fully signed header with the SAME unsigned part / hash (header-cache hit), after the very
+// same variant was first offered to AddHeader, and after ExecuteBlock of the honest block (same hash,
+// different Bookkeepers/SigData: non-validator signatures, signatures over another hash, missing SigData,
+// bookkeepers >= quorum with fewer signatures, ...). After every acceptance the header served by
+// GetHeaderByHeight / GetBlockByHeight must itself carry the quorum.
+//
 // Part 2 (hand-over histories): mc.BFS over event sequences (depth 2-3 quick / 3-4 thorough) on fresh
 // ledgers: plain / config-announcing (add, remove, replace a validator) blocks and headers signed by the
 // set in force, by the previous set, by one signer too few, with a wrong block root or a wrong state root
@@ -260,6 +267,7 @@ type sim struct {
 	inflate uint32 // 0 = not inflated, else the tip set by VerifC14SetHeaderTip (re-applied on restart)
 	fresh   int
 	seq     uint64
+	pinSeq  uint64
 	diverge string // the ledger no longer matches the reference (set in force / tip): nothing further is judged on it
 	flag    string // a quorum violation was recorded on this path (BFS does not expand such states further)
 }
@@ -382,6 +390,8 @@ const (
 	pAdd = "AddBlock"
 	pSub = "SubmitBlock"
 	pHdr = "AddHeaders"
+	pHdr1 = "AddHeader"
+	pExec = "ExecuteBlock" // prior step only: ExecuteBlock of the block, nothing submitted
 )
 
 // call builds the successor block (or header) with the given signer spec / announced config / defect and
@@ -389,10 +399,14 @@ const (
 // defect: "" | "badroot" | "badstate". key = stable class key used in violation keys.
 func (s *sim) call(path string, sp sigSpec, newSet []*polyenv.Acct, defect, key string, trace []string) callOut {
 	L := s.ch.L
-	s.seq++
+	seq := s.pinSeq // experiments deliver several variants of ONE header (same unsigned part, same hash)
+	if seq == 0 {
+		s.seq++
+		seq = s.seq
+	}
 	t0 := time.Now()
 	defer func() { atomic.AddInt64(&tCall, int64(time.Since(t0))) }()
-	isHdr := path == pHdr
+	isHdr := path == pHdr || path == pHdr1
 	bh0, bhash0, hh0 := L.GetCurrentBlockHeight(), L.GetCurrentBlockHash(), L.GetCurrentHeaderHeight()
 	if hh0 != s.hdrTip {
 		r.HarnessError("%s: reference header tip %d != ledger %d (trace %v)", s.tag, s.hdrTip, hh0, trace)
@@ -413,7 +427,7 @@ func (s *sim) call(path string, sp sigSpec, newSet []*polyenv.Acct, defect, key 
 		cfg = chainCfg(newSet)
 	}
 	hdr := &types.Header{Version: types.CURR_HEADER_VERSION, ChainID: polyenv.ChainID(), PrevBlockHash: prevHash,
-		Timestamp: prevHdr.Timestamp + 1, Height: height, ConsensusData: s.seq,
+		Timestamp: prevHdr.Timestamp + 1, Height: height, ConsensusData: seq,
 		ConsensusPayload: polyenv.VbftPayload(s.blkCfgH, cfg), NextBookkeeper: polyenv.OperatorAddr(s.gvals)}
 	switch defect {
 	case "badtime":
@@ -421,7 +435,7 @@ func (s *sim) call(path string, sp sigSpec, newSet []*polyenv.Acct, defect, key 
 	case "badpayload":
 		hdr.ConsensusPayload = []byte("{\"leader\":1,\"new_chain_config\":")
 	}
-	if !isHdr {
+	if !isHdr || hh0 == bh0 { // a header right above the block tip is the header of the next block
 		hdr.BlockRoot = L.GetBlockRootWithPreBlockHashes(height, []common.Uint256{prevHash})
 		if defect == "badroot" {
 			hdr.BlockRoot[5] ^= 0x10
@@ -446,9 +460,17 @@ func (s *sim) call(path string, sp sigSpec, newSet []*polyenv.Acct, defect, key 
 		out.region = "main-new"
 	}
 	blk := &types.Block{Header: hdr}
+	if path == pExec {
+		if _, e := L.ExecuteBlock(blk); e != nil {
+			r.HarnessError("ExecuteBlock: %v", e)
+		}
+		return out
+	}
 	switch path {
 	case pHdr:
 		out.err = L.AddHeaders([]*types.Header{hdr})
+	case pHdr1:
+		out.err = L.AddHeader(hdr)
 	case pAdd:
 		res, e := L.ExecuteBlock(blk)
 		if e != nil {
@@ -504,6 +526,28 @@ func (s *sim) call(path string, sp sigSpec, newSet []*polyenv.Acct, defect, key 
 		}
 		if out.err == nil {
 			r.Class("silent-nil-without-progress")
+		}
+	}
+	// --- oracle 2: what the ledger stores and serves for that height must itself carry the quorum
+	if out.accepted {
+		served := map[string]*types.Header{}
+		if h, e := L.GetHeaderByHeight(height); e == nil && h != nil {
+			served["GetHeaderByHeight"] = h
+		}
+		if !isHdr {
+			if b, e := L.GetBlockByHeight(height); e == nil && b != nil {
+				served["GetBlockByHeight"] = b.Header
+			} else {
+				r.Violation(fmt.Sprintf("accepted-block-not-served/%s/%s", path, key), detail(fmt.Sprint(e)))
+			}
+		}
+		for api, sh := range served {
+			sv := judge(set, sh)
+			if sh.Hash() != hdr.Hash() || sv.valid < out.m || sv.foreign || sv.dup {
+				r.Violation(fmt.Sprintf("served-header-lacks-quorum/%s/%s/%s/%s", out.region, path, api, key),
+					detail(fmt.Sprintf("served header: %d distinct valid member signatures, %d bookkeepers, %d signatures, same hash %v", sv.valid, len(sh.Bookkeepers), len(sh.SigData), sh.Hash() == hdr.Hash())))
+				s.flag = "served"
+			}
 		}
 	}
 	// --- reference model: the set changes only when an accepted block (header) announces a new one
@@ -571,6 +615,71 @@ func noteThr(region string, n int, path string, k int, acc bool) {
 	}
 }
 
+// priors: what the ledger already holds for the height when the variant arrives.
+const (
+	prHdrGood = "signed-header-of-same-hash-cached" // AddHeader of the fully signed header with the same unsigned part
+	prSame    = "same-variant-via-AddHeader-before" // the very same variant was first offered to AddHeader
+	prExec    = "honest-block-executed-before"      // ExecuteBlock of the fully signed block of the same hash
+)
+
+// firstK: the subset spec consisting of exactly the first k validators.
+func firstK(sp sigSpec, vals []*polyenv.Acct) bool {
+	for i, a := range sp.bks {
+		if i >= len(vals) || a != vals[i] {
+			return false
+		}
+	}
+	return true
+}
+
+func (s *sim) priorsFor(path string) []string {
+	if path == pHdr || path == pHdr1 {
+		return []string{prSame}
+	}
+	if s.ch.L.GetCurrentHeaderHeight() == s.ch.L.GetCurrentBlockHeight() {
+		return []string{prHdrGood, prSame, prExec}
+	}
+	return []string{prExec} // header tip ahead of the block tip (inflated index): no header of the next block can be added
+}
+
+// experiment: one header (one hash) delivered as several variants: the prior step, then the variant under
+// test through `path`; afterwards the block tip is re-aligned with the header tip by committing the fully
+// signed block of the same hash if the variant was refused.
+func (s *sim) experiment(path string, sp sigSpec, prior string, trace []string) callOut {
+	s.seq++
+	s.pinSeq = s.seq
+	defer func() { s.pinSeq = 0 }()
+	full := sigSpec{"all", s.blkSet, good(s.blkSet...)}
+	blockPath := path == pAdd || path == pSub
+	tr := append(append([]string{}, trace...), "prior="+prior)
+	switch prior {
+	case prHdrGood:
+		if o := s.call(pHdr1, full, nil, "", sp.name+"/prior-step:signed-header", tr); !o.accepted {
+			atomic.AddInt64(&canonKO, 1)
+			r.Note("canonical_rejected_"+s.tag, fmt.Sprintf("prior AddHeader: %v", o.err))
+		}
+	case prSame:
+		o := s.call(pHdr1, sp, nil, "", sp.name+"/offered-to-AddHeader-first", tr)
+		r.Class("entry-AddHeader/" + map[bool]string{true: "accept", false: "reject"}[o.accepted])
+	case prExec:
+		s.call(pExec, full, nil, "", "", tr)
+	}
+	atomic.AddInt64(&nCalls, 1)
+	if s.diverge != "" {
+		return callOut{}
+	}
+	out := s.call(path, sp, nil, "", sp.name+"/prior="+prior, tr)
+	atomic.AddInt64(&nCalls, 1)
+	if blockPath && s.diverge == "" && s.inflate == 0 && s.ch.L.GetCurrentHeaderHeight() > s.ch.L.GetCurrentBlockHeight() {
+		if o := s.call(pSub, full, nil, "", sp.name+"/realign", tr); !o.accepted {
+			atomic.AddInt64(&canonKO, 1)
+			r.Note("canonical_rejected_"+s.tag, fmt.Sprintf("realign after %s: %v", prior, o.err))
+		}
+		atomic.AddInt64(&nCalls, 1)
+	}
+	return out
+}
+
 func (s *sim) sweepPhase(phase string, paths []string, specs []sigSpec, vec *[]byte) {
 	n := len(s.blkSet)
 	for _, path := range paths {
@@ -605,6 +714,35 @@ func (s *sim) sweepPhase(phase string, paths []string, specs []sigSpec, vec *[]b
 			}
 			if s.diverge != "" {
 				return // the ledger no longer matches the reference; the violation is recorded
+			}
+		}
+		// the same variants against what the ledger already holds for that height (not repeated at the
+		// boundary tip: the mechanism does not depend on the threshold rule; low and new regions run it)
+		for _, sp := range specs {
+			if phase == "tip=20000000" {
+				break
+			}
+			if r.Quick() && strings.HasPrefix(sp.name, "subset/") && !firstK(sp, s.gvals) {
+				continue // quick: one subset per size (the first k validators); thorough: all 2^N
+			}
+			for _, prior := range s.priorsFor(path) {
+				if r.Expired() {
+					r.Capped("sweep " + s.tag)
+					return
+				}
+				out := s.experiment(path, sp, prior, []string{phase, path, sp.name})
+				if s.diverge != "" {
+					return
+				}
+				res := "reject"
+				if out.accepted {
+					res = "accept"
+					*vec = append(*vec, 'A')
+				} else {
+					*vec = append(*vec, 'r')
+				}
+				r.Class("prior:" + prior + "/" + res)
+				r.Case(fmt.Sprintf("%s/N=%d/%s/%s/prior=%s/%s", out.region, n, path, sp.name, prior, res))
 			}
 		}
 		// config-ANNOUNCING header/block refused at every rejection stage, each followed by a header/block
@@ -1065,6 +1203,10 @@ func main() {
 			"main-boundary/accept", "main-boundary/reject", "main-new/accept", "main-new/reject",
 			"main-new/reject:legacy-would-accept", "handover/accept", "handover/reject", "handover/old-set-rejected-after-handover",
 			"handover/restart", "followup-by-announced-set/reject", "handover/followup-by-announced-set/reject")
+		for _, pr := range []string{prHdrGood, prSame, prExec} {
+			r.Require("prior:"+pr+"/accept", "prior:"+pr+"/reject")
+		}
+		r.Require("entry-AddHeader/accept", "entry-AddHeader/reject")
 		for _, st := range rejectStages {
 			r.Require("announce-refused-at/" + st + "/reject")
 			if st != "badpayload" {
